@@ -24,7 +24,15 @@ class Generator(Curve, Point):
     The point at infinity is ``(x, y) == (None, None)``.
     """
 
-    def __new__(cls, p: int, a: int, b: int, basis: tuple[int, int], order: int) -> Generator:  # type: ignore[misc]
+    def __new__(  # type: ignore[misc]
+        cls,
+        p: int,
+        a: int,
+        b: int,
+        basis: tuple[int, int],
+        order: int,
+        entropy_f: Callable[[int], bytes] = os.urandom,
+    ) -> Generator:
         # since Generator extends tuple (via Point), we need to override __new__
         return tuple.__new__(cls, basis)  # type: ignore[return-value]
 
